@@ -135,6 +135,7 @@ def run(ctx):
     disagreements, spec_fail = [], []
     hist, distinct = {}, set()
     checked = 0
+    out_of_range = 0
     for cid, sl, args in cases:
         ty, bl, br, pu, iu, op, tv, dv, _ = meta[cid]
         got = impl.get(cid)
@@ -157,6 +158,16 @@ def run(ctx):
         if tq is None or dq is None:
             continue
         ex = tq + dq * k2 / k if "add" in op else tq - dq * k2 / k
+        if B.is_float(ty):
+            # the accuracy clause presupposes that no exact intermediate leaves the normal range of the storage type
+            # (1 yottakelvin read in attokelvin is 1e42: not an f32); the bit-exact comparison with the model above still applies
+            f_ = FC.FMT[ty]
+            hi = Fraction(2) ** ((1 << (f_["ew"] - 1)) - 1) / 1000
+            lo = Fraction(1, 2 ** ((1 << (f_["ew"] - 1)) - 2)) * 1000
+            inter = [ex, tq, dq, (tq + c) * k, dq * k2, (ex + c) * k, dq * k2 / k, k2 / k, 1 / k]
+            if any(abs(x) >= hi or (x != 0 and abs(x) <= lo) for x in inter):
+                out_of_range += 1
+                continue
         if rb is None:
             spec_fail.append((cid, f"read-back is {parts[3]}"))
             continue
@@ -197,6 +208,7 @@ def run(ctx):
                    "-273.15, -40, 0, -0.0, 1e6; each stage (stored point, stored interval, stored result, read-back) compared with the extracted model; "
                    "read-back compared with t +/- delta k'/k exactly (BigRational) / to 64 ulps of the largest term (floats)")
     cov["spec_checked"] = checked
+    cov["spec_skipped_exact_intermediate_out_of_range"] = out_of_range
     cov["disagreements_checked"] = len(disagreements)
     cov["spec_failures"] = len(spec_fail)
     cov["histogram"] = dict(sorted(hist.items())[:40])
